@@ -70,6 +70,12 @@ theorem engine_drops_only_late (e : Eng) (he : EngWF e) (evs : List (Nat × Int)
         ∧ ∀ sn ∈ x.1.routesOf x.2.1.1, ∀ c, x.1.cfgs.lookup sn = some c → x.2.1.2 < w - c.lateness :=
   runEng_late evs e he
 
+/-- Engine level, any event sequence (passed, dropped and diverted events interleaved over any
+number of event types): at every later point of the run every source's watermark is at least
+what it was at the start — `process_inner` never lowers a source's watermark. -/
+theorem engine_source_watermarks_never_decrease (e : Eng) (evs : List (Nat × Int)) (n : Nat) :
+    ∀ x ∈ runEng e evs, wmLe (engWmOf e n) (engWmOf x.1 n) := runEng_mono evs e n
+
 /-- A dropped/diverted event is not observed (the tracker is unchanged); a passed event is observed
 under its event type. -/
 theorem engine_observes_exactly_passed (e : Eng) (et : Nat) (ts : Int) :
